@@ -340,7 +340,12 @@ func GenTypes(t *rapid.T, o *Opts) *Spec {
 	subAtModuleRoot := false
 	var userTime, likeRootEnum *tinfo
 	if o.ShortModule {
-		switch rapid.IntRange(0, 6).Draw(t, "moduleForm") {
+		switch rapid.IntRange(0, 7).Draw(t, "moduleForm") {
+		case 4:
+			// a module without domain; the analysed package sits below a directory whose name has a dot
+			module = "shop"
+			root = &Pkg{Name: rootName, Path: module + "/api.v2/" + rootName, Mod: module}
+			o.class("pkg:dotted_directory_in_a_local_module")
 		case 3:
 			// a two-element module whose own root package is imported by the analysed sub-package
 			module = "verif.test/shopmod"
